@@ -773,7 +773,7 @@ impl C07Oracle {
         }
     }
     pub fn bound(cfg: &DpCfg) -> u64 {
-        30 + 6 * u64::from(cfg.max_retry)
+        36 + 6 * u64::from(cfg.max_retry)
     }
     /// snapshot at the beginning of the fault-free phase
     pub fn begin_clean(&mut self, v: &mut View) {
